@@ -283,6 +283,8 @@ class C01(core.Check):
         r2 = p2.getRoot()
         if r2 is None:
             return 'parsing the serialisation %r gave no tree' % s1
+        if case['kind'] != 'api' and (p1.doctype or None) != (p2.doctype or None):
+            return 'round trip of %r changed the doctype: %r -> %r' % (s1, p1.doctype, p2.doctype)
         a, b = norm_shape(orig, BIN), norm_shape(r2, BIN)
         if multi or r2.tagName == 'xxxblank':
             # whitespace following the doctype in a multi-root document is outside the domain
